@@ -280,6 +280,27 @@ class IntEval:
         self.t = tables
         self.cof = [tables.note[n[1]] for n in tables.table("circle_of_fifths_order")]
 
+    def class_env(self, cls: str) -> dict:
+        """Values of the class-level names that the class body computes with statements other than a plain literal table
+        (e.g. a list filled by a loop): the body is executed once in the evaluator."""
+        cache = self.__dict__.setdefault("_class_env", {})
+        if cls in cache:
+            return cache[cls]
+        cache[cls] = {}
+        env = {"__class_body__": True}
+        ci = self.p.classes.get(cls)
+        for st in (ci.node.body if ci is not None else []):
+            if isinstance(st, (ast.FunctionDef, ast.AsyncFunctionDef, ast.ClassDef)) or (isinstance(st, ast.Expr) and isinstance(st.value, ast.Constant)):
+                continue
+            if isinstance(st, ast.Assign) and len(st.targets) == 1 and isinstance(st.targets[0], ast.Name) and st.targets[0].id == "circle_of_fifths_order":
+                continue
+            if isinstance(st, ast.AnnAssign) and st.value is not None and isinstance(st.target, ast.Name):
+                st = ast.copy_location(ast.Assign(targets=[st.target], value=st.value), st)
+            self.stmt(st, env)
+        env.pop("__class_body__", None)
+        cache[cls] = env
+        return env
+
     def call(self, q: str, args: list[int]):
         fi = self.p.func(q)
         env = dict(zip(fi.params, args))
@@ -315,6 +336,20 @@ class IntEval:
         elif isinstance(s, ast.AugAssign) and isinstance(s.target, ast.Name):
             fake = ast.BinOp(left=ast.Name(id=s.target.id, ctx=ast.Load()), op=s.op, right=s.value)
             env[s.target.id] = self.ev(fake, env)
+        elif isinstance(s, ast.For) and isinstance(s.target, ast.Name) and not s.orelse:
+            it = self.ev(s.iter, env)
+            if not isinstance(it, (list, tuple, range)):
+                raise AnalysisError(f"value-set evaluator: loop over `{short(s.iter)}`")
+            for v in list(it)[:4096]:
+                env[s.target.id] = v
+                for x in s.body:
+                    self.stmt(x, env)
+        elif isinstance(s, ast.Expr) and isinstance(s.value, ast.Call) and isinstance(s.value.func, ast.Attribute) and s.value.func.attr == "append" \
+                and isinstance(s.value.func.value, ast.Name) and len(s.value.args) == 1:
+            base = self.ev(s.value.func.value, env)
+            if not isinstance(base, list):
+                raise AnalysisError(f"value-set evaluator: append to `{short(s.value.func.value)}`")
+            base.append(self.ev(s.value.args[0], env))
         elif isinstance(s, ast.While):
             for _ in range(64):                     # the value space is tiny: a loop that does not end within 64 rounds does not end
                 if not self.ev(s.test, env):
@@ -331,8 +366,26 @@ class IntEval:
             return e.value
         if isinstance(e, ast.Name):
             if e.id not in env:
+                if e.id in self.p.settings and isinstance(self.p.settings[e.id], (int, bool)):
+                    return self.p.settings[e.id]
+                if e.id == "circle_of_fifths_order" and env.get("__class_body__"):
+                    return [("Note", v) for v in self.cof]
                 raise AnalysisError(f"value-set evaluator: unknown name {e.id}")
             return env[e.id]
+        if isinstance(e, ast.List):
+            return [self.ev(x, env) for x in e.elts]
+        if isinstance(e, ast.ListComp) and len(e.generators) == 1 and isinstance(e.generators[0].target, ast.Name):
+            g = e.generators[0]
+            it = self.ev(g.iter, env)
+            if not isinstance(it, (list, tuple, range)):
+                raise AnalysisError(f"value-set evaluator: comprehension over `{short(g.iter)}`")
+            out = []
+            for v in list(it)[:4096]:
+                env2 = dict(env)
+                env2[g.target.id] = v
+                if all(self.ev(c, env2) for c in g.ifs):
+                    out.append(self.ev(e.elt, env2))
+            return out
         if isinstance(e, ast.UnaryOp):
             v = self.ev(e.operand, env)
             return -v if isinstance(e.op, ast.USub) else (not v if isinstance(e.op, ast.Not) else +v)
@@ -388,6 +441,18 @@ class IntEval:
                 return ("INDEX-ERROR", i)
         if ch0 == ["CircleOfFifths", "circle_of_fifths_order"]:
             return [("Note", v) for v in self.cof]
+        if ch0 and len(ch0) == 2 and ch0[0] == "CircleOfFifths" and ch0[1] in self.class_env("CircleOfFifths"):
+            return self.class_env("CircleOfFifths")[ch0[1]]
+        if isinstance(e, ast.Subscript) and attr_chain(e.value) and len(attr_chain(e.value)) == 2 and attr_chain(e.value)[0] == "CircleOfFifths" \
+                and attr_chain(e.value)[1] in self.class_env("CircleOfFifths"):
+            base = self.class_env("CircleOfFifths")[attr_chain(e.value)[1]]
+            i = self.ev(e.slice, env)
+            if isinstance(i, tuple) and i and isinstance(i[0], str) and i[0].endswith("-ERROR"):
+                return i
+            try:
+                return base[i]              # Python semantics: a negative index counts from the end
+            except (IndexError, KeyError, TypeError):
+                return ("INDEX-ERROR", i)
         if isinstance(e, ast.Subscript) and isinstance(e.value, ast.Name):
             base = self.ev(e.value, env)
             i = self.ev(e.slice, env)
@@ -427,9 +492,17 @@ class IntEval:
                 return ("TYPE-ERROR", src(e))
             if isinstance(e.func, ast.Attribute) and e.func.attr == "index" and isinstance(e.func.value, ast.Name) and len(e.args) == 1:
                 base = self.ev(e.func.value, env)
+                if base and isinstance(base[0], tuple) and base[0][0] == "Note":
+                    v0 = self.ev(e.args[0], env)
+                    return base.index(v0) if v0 in base else ("VALUE-ERROR", v0)
                 v = self.ev(e.args[0], env)
                 if isinstance(base, list):
                     return base.index(v) if v in base else ("VALUE-ERROR", v)
+                return ("TYPE-ERROR", src(e))
+            if ch == ["range"] and 1 <= len(e.args) <= 3:
+                vals = [self.ev(a, env) for a in e.args]
+                if all(isinstance(v, int) for v in vals):
+                    return range(*vals)
                 return ("TYPE-ERROR", src(e))
             if ch == ["Note"]:
                 v = self.ev(e.args[0], env)
@@ -439,6 +512,17 @@ class IntEval:
             if ch and ch[0] == "CircleOfFifths" and len(ch) == 2 and f"CircleOfFifths.{ch[1]}" in self.p.functions:
                 return self.call(f"CircleOfFifths.{ch[1]}", [self.ev(a, env) for a in e.args])
             raise AnalysisError(f"value-set evaluator: unsupported call `{short(e)}`")
+        if isinstance(e, ast.Subscript) and not isinstance(e.slice, ast.Slice):
+            base = self.ev(e.value, env)
+            i = self.ev(e.slice, env)
+            for x in (base, i):
+                if isinstance(x, tuple) and x and isinstance(x[0], str) and x[0].endswith("-ERROR"):
+                    return x
+            if isinstance(base, (list, tuple, dict, range)):
+                try:
+                    return base[i]          # Python semantics, negative indices included
+                except (IndexError, KeyError, TypeError):
+                    return ("INDEX-ERROR", i)
         raise AnalysisError(f"value-set evaluator: unsupported expression `{short(e)}`")
 
 
@@ -449,11 +533,16 @@ def check_circle(ctx: Ctx, tables: Tables) -> None:
     ev = IntEval(p, tables)
     file = tables.file
     bad_pos, bad_dist, bad_land = [], [], []
-    reps = list(range(12)) + [60, 61, 127, 21, 108]   # all residues + a few real pitches (the functions reduce mod 12)
+    reps = list(range(128))          # every MIDI pitch: nothing is assumed about how the function reduces its argument
+    base_pos = {}
     for a in reps:
         pa = ev.call("CircleOfFifths.get_position", [a])
+        if a < 12:
+            base_pos[a] = pa
         if not (isinstance(pa, int) and -5 <= pa <= 6):
             bad_pos.append((a, pa))
+        elif pa != base_pos.get(a % 12):
+            bad_pos.append((a, pa, f"pitch class {a % 12} has position {base_pos.get(a % 12)}"))
     n = 0
     for a in range(12):
         for b in range(12):
@@ -467,8 +556,8 @@ def check_circle(ctx: Ctx, tables: Tables) -> None:
             if land != b % 12:
                 bad_land.append((a, b, d, land))
     fn = p.func("CircleOfFifths.get_distance")
-    ctx.check(not bad_pos, "VS-POS", "get_position in [-5,6] for every pitch class", function="CircleOfFifths.get_position",
-              construct="get_position leaves [-5, 6]", message=f"counter-examples (pitch, position): {bad_pos[:5]}", file=file,
+    ctx.check(not bad_pos, "VS-POS", "get_position in [-5,6] for every MIDI pitch 0..127, the same for all pitches of a pitch class", function="CircleOfFifths.get_position",
+              construct="get_position leaves [-5, 6] or differs between pitches of one pitch class", message=f"counter-examples (pitch, position[, expected]): {bad_pos[:5]}", file=file,
               node=p.func("CircleOfFifths.get_position").node)
     ctx.check(not bad_dist, "VS-DIST", f"get_distance in [-5,6] and = position difference mod 12 for all {n} residue pairs",
               function="CircleOfFifths.get_distance", construct="get_distance outside [-5, 6] or inconsistent with positions",
